@@ -92,3 +92,60 @@ UNITS += [
                     # (not called by a copy constructor; present so that one that does is checked against their preconditions)
                     'R___initialEnter': dict(R_IE, optional=True), 'R___finalExit': dict(R_FE, optional=True)}),
 ]
+
+# ---- value context (witness -DW_VALCTX): machines are move-constructible; a moved-to machine is what the source was
+import copy as _copy
+def _valctx(x):
+    if isinstance(x, str):
+        return x.replace('self->context == other->context', 'self->context._opaque == other->context._opaque').replace('self->context == context_', 'self->context._opaque == context_->_opaque') \
+                .replace('.context == ', '.context._opaque == ').replace('->_core.context', '->_core.context._opaque') if False else \
+               x.replace('self->context == other->context', 'self->context._opaque == other->context._opaque').replace('self->context == context_', 'self->context._opaque == context_->_opaque')
+    if isinstance(x, tuple):
+        return tuple(_valctx(y) for y in x)
+    if isinstance(x, list):
+        return [_valctx(y) for y in x]
+    if isinstance(x, dict):
+        return {k: _valctx(v) for k, v in x.items()}
+    return x
+def _variant(uid, new_id, sig, **kw):
+    u = [x for x in UNITS if x['id'] == uid][0]
+    v = dict(u)
+    v['id'] = new_id
+    v['witness_defines'] = ['W_VALCTX']
+    v['target'] = dict(u['target'], sig=sig)
+    v['contracts'] = _valctx(_copy.deepcopy({k: dict(c) for k, c in u['contracts'].items()}))
+    v.update(kw)
+    return v
+UNITS += [
+    _variant('c17.CoreT.copy', 'c17.CoreT.copy.valctx', r'^void \(const ffsm2::detail::CoreT'),
+    _variant('c17.CoreT.copy', 'c17.CoreT.move', r'^void \(ffsm2::detail::CoreT<.*&&'),
+    _variant('c17.CoreT.ctor', 'c17.CoreT.ctor.valctx', r'::Context &,'),
+    _variant('c17.CoreT.ctor', 'c17.CoreT.ctor.rvalue', r'::PureContext &&,'),
+]
+
+def _valctx2(x):
+    if isinstance(x, str):
+        return x.replace('.context == ', '.context._opaque == ').replace('_core.context &&', '_core.context._opaque &&')
+    if isinstance(x, tuple):
+        return tuple(_valctx2(y) for y in x)
+    if isinstance(x, list):
+        return [_valctx2(y) for y in x]
+    if isinstance(x, dict):
+        return {k: _valctx2(v) for k, v in x.items()}
+    return x
+def _mvariant(uid, new_id, sig):
+    u = [x for x in UNITS if x['id'] == uid][0]
+    v = dict(u)
+    v['id'] = new_id
+    v['witness_defines'] = ['W_VALCTX']
+    v['target'] = dict(u['target'], sig=sig)
+    v['contracts'] = {k: _valctx2(_copy.deepcopy(dict(c))) for k, c in u['contracts'].items()}
+    v['contracts'] = {(k.replace('cctor', '[cm]ctor') if k.startswith('@re:') else k): c for k, c in v['contracts'].items()}
+    v['calls'] = {(k.replace('cctor', '[cm]ctor') if k.startswith('re:') else k): m for k, m in u.get('calls', {}).items()}
+    return v
+UNITS += [
+    _mvariant('c17.R_.copy', 'c17.R_.copy.valctx', r'^void \(const ffsm2::detail::R_'),
+    _mvariant('c17.R_.copy', 'c17.R_.move', r'^void \(ffsm2::detail::R_<.*&&'),
+    _mvariant('c17.RV_.copy', 'c17.RV_.copy.valctx', r'^void \(const ffsm2::detail::RV_'),
+    _mvariant('c17.RV_.copy', 'c17.RV_.move', r'^void \(ffsm2::detail::RV_<.*&&'),
+]
